@@ -66,8 +66,8 @@ LEVEL_TEXT = ("PARTIAL. Proved for all interleavings: Close returns only when no
               "keystores' select-guarded Close is correct under sequential use; every constructor error point of nine constructors stops what was "
               "started; every start site of the regenerated inventory is mapped to a class that Close awaits, that its caller joins, or that ends "
               "by itself. Refuted with replayed witnesses: keystore Close under a concurrent second call (early return / double close), the refresh "
-              "manager's unguarded WaitGroup registration (panic in Close), provider/dual.New and fullrt.NewFullRT error/panic paths, the reset "
-              "handshake that wedges the resettable keystore so that Close hangs.")
+              "manager's unguarded WaitGroup registration (panic in Close), provider/dual.New and fullrt.NewFullRT error/panic paths, (the reset "
+              "handshake that wedged the resettable keystore so that Close hung was found by this check and has been repaired in /repo).")
 LEVEL_NOTE = ("The theorems are about Gallina models of the Close protocols; that the Go code follows them is checked by exploration only "
               "(generated instants of Close, bounded by the generator). Trusted: Coq kernel, vm_compute, synctest, the harness library.")
 
@@ -100,8 +100,6 @@ def classify(desc, code):
         if ok and not ok[0].get("ok"):
             return "provider-dual-new-leak"
     if pkg == "provider/keystore":
-        if "handleResetOp" in left and any(o.startswith("reset-cancel") for o in (desc.get("ops") or [])):
-            return "resettable-reset-start-abandoned"
         panics = [k for k in kinds if k in ("TCtorPanic", "TClosePanic")]
         oppanic = [e for e in trace if e.get("ev") == "TOpEnd" and e.get("res") == "RPanic"]
         if desc.get("concurrent2") and desc.get("second_early") and not hung and not desc.get("bubble") and not panics and not oppanic:
